@@ -127,4 +127,29 @@ IFTensordot(a0, b0, axa, axb, mode) ==
       c == IF mode = "fused" THEN ITensordotFused(a4, b4, naxa, naxb) ELSE ITensordotBlockwise(a4, b4, naxa, naxb)
   IN IResolveOddpos(a4, b4, c)
 
+\* fermionic fuse / unfuse (fermionic_core.py:596-722)
+IFFuse(x0, groups) ==
+  LET perm == FusePerm(x0, groups)
+      x1 == IFTranspose(x0, perm, TRUE)
+      g2 == [g \in 1..Len(groups) |-> [i \in 1..Len(groups[g]) |-> PosIn(perm, groups[g][i])]]
+      dualg == {g \in 1..Len(g2) : x1.ix[g2[g][1]].dual}
+      flips == FlattenSeq([g \in 1..Len(g2) |-> IF g \in dualg THEN SelectSeq(g2[g], LAMBDA ax : ~x1.ix[ax].dual) ELSE <<>>])
+      vperm == [i \in 1..Rank(x1) |->
+                  IF \E g \in dualg : InSeq(g2[g], i)
+                  THEN LET g == CHOOSE h \in dualg : InSeq(g2[h], i) IN g2[g][Len(g2[g]) + 1 - PosIn(g2[g], i)]
+                  ELSE i]
+      x2 == IPhaseFlip(x1, flips)
+      x3 == IF dualg = {} THEN x2 ELSE IPhaseTranspose(x2, vperm)
+      x4 == IPhaseSync(x3)
+  IN IFuseCore(x4, g2)
+IFUnfuse(x, ax) ==
+  LET ix == x.ix[ax]
+      sub == SubIxs(ix)
+      nn == Len(sub)
+      y == IUnfuse(IPhaseSync(x), ax)
+  IN IF ~ix.dual THEN y
+     ELSE LET flips == SelectSeq([i \in 1..nn |-> ax + i - 1], LAMBDA a : ~sub[a - ax + 1].dual)
+              vperm == [i \in 1..(Rank(x) + nn - 1) |-> IF i >= ax /\ i < ax + nn THEN ax + nn - 1 - (i - ax) ELSE i]
+          IN IPhaseTranspose(IPhaseFlip(y, flips), vperm)
+
 =============================================================================
